@@ -233,6 +233,8 @@ METAS.append(('semantic', {
     'encoding': 'utf-16', 'line_endings': 'dos', 'version': '2.0'}))
 
 
+META_BY_NAME['semantic'] = METAS[-1][1]
+
 # phrases that diff tools emit (a library for diffs may special-case them)
 VENDOR_DIFF = b"\n".join([
     b"diff --git a/img.png b/img.png", b"new file mode 100644",
@@ -301,3 +303,19 @@ def special_chars():
 
 
 SPECIAL_CHARS = special_chars()
+
+# the structures the specification documents for metadata, in their
+# degenerate forms: old == new pairs, zero counts, tuples (which json
+# writes as arrays) holding dicts with unsorted keys
+METAS.append(('degenerate-pairs', {
+    'path': {'old': 'src/a.c', 'new': 'src/a.c'},
+    'revision': {'old': 'abc123', 'new': 'abc123'},
+    'unix file mode': {'old': '0100644', 'new': '0100644'},
+    'symlink target': {'old': 't', 'new': 't'},
+    'stats': {'insertions': 0, 'deletions': 0, 'lines changed': 0,
+              'files': 0, 'changes': 0},
+    'op': 'modify', 'type': 'file'}))
+METAS.append(('tuples', {'r': ({'b': 1, 'a': 2},),
+                         't': (1, (2, {'z': 0, 'y': [(), ({'q': 1, 'p': 2},)]})),
+                         'e': ()}))
+META_BY_NAME.update(dict(METAS[-2:]))
